@@ -16,7 +16,10 @@
 //
 // 525-line runs (mode 2): XDS network name and call letter packets (EIA-608
 // class "channel", types 1 and 2) multiplexed pair by pair on field 2 with
-// idle pairs; faults: deviating (checksum-valid) packet, parity error,
+// idle pairs; stations are 8 network names x (own call letters | those of a
+// second affiliate | call letters shared between names | none), a third of the
+// switches go to an affiliate (same name, other call letters: the station is
+// identified by name + call letters); faults: deviating (checksum-valid) packet, parity error,
 // checksum error, dropped packet.  (event.h: "VPS/TTX and XDS will not combine
 // in real life, feeding the decoder with artificial data can confuse the
 // logic" - therefore never mixed in one run.)
@@ -317,6 +320,23 @@ struct C13 : World {
         default: { Op o; o.task = 0; o.kind = "idle"; o.a = {1 + (int64_t)r.below(45)}; p.ops.push_back(o); break; }
       }
     }
+    if (mode == 2) {
+      // XDS station identity is name + call letters: consecutive stations that share the network name and differ only in
+      // the call letters (two affiliates of one network), or share call letters and differ in the name.  A separate
+      // random stream and a fifth station argument (absent = 0 = the station's own call letters) keep all older plans
+      // and replay files meaning what they meant.
+      Rng rx(seed, "xds-affiliates");
+      Op* prev = nullptr;
+      for (auto& o : p.ops) {
+        if (o.kind != "station") continue;
+        o.a.push_back((int64_t)rx.below(16));  // call letter variant, see set_station()
+        if (prev && rx.chance(1, 3)) {         // an affiliate of the same network: same name, other call letters
+          o.a[0] = prev->a[0]; o.a[1] |= 1;
+          if (o.a[4] % 4 == prev->a[4] % 4 || (o.a[4] % 4 <= 1 && prev->a[4] % 4 <= 1)) o.a[4] = (prev->a[4] % 4 == 2) ? 0 : 2;
+        }
+        prev = &o;
+      }
+    }
     if (mode == 1 && r.chance(2, 3)) { Op o; o.task = 0; o.kind = "gap"; o.a = {1 + (int64_t)r.below(60)}; p.ops.push_back(o); wait(10, 60); }
     wait(4, 30);
     // carriers: one op = one reception opportunity
@@ -361,6 +381,7 @@ struct C13 : World {
   // not be delivered (partial packets of the old station are legitimately discarded): both values are accepted
   bool call_open_uncertain = false, have_call_alt = false; std::string last_call_alt;
   bool xds_dirty = false;  // a name or call letter packet differed from its predecessor since the last NETWORK_ID
+  int stable_names = 0;    // name packets received in a row unchanged since the name or the call letters last changed
   // statistics
   int receptions = 0, legit_net = 0, quiet_receptions = 0;
   static C13* g;
@@ -422,7 +443,15 @@ struct C13 : World {
         if (!L.valid) break;
         int c = L.kind;
         bool changed = !have[c] || last[c] != L.cni;
-        if (changed) { streak[c] = 1; dirty = true; } else { streak[c]++; if (!dirty) quiet_receptions++; }
+        // A blank NETWORK event ("vbi_network all zero", event.h) told the client that the station and with it the
+        // identifiers of ALL carriers are revoked (the client now holds 0 for each of them).  The first announcement of a
+        // carrier's identifier after that is not "announced again while the same value keeps arriving": nothing announced
+        // is standing any more, and the fidelity clause ("events carry exactly the values that were transmitted") can only
+        // be met for this carrier by a new NETWORK_ID.  So the first reception on EACH revoked carrier (not only the first
+        // line after the blank event) counts as news; the reception history for the debounce clause is kept (lenient side).
+        bool revoked = blanked[c];
+        if (changed) { streak[c] = 1; dirty = true; }
+        else { streak[c]++; if (revoked) { dirty = true; ctx->count("reception_after_revocation"); } else if (!dirty) quiet_receptions++; }
         have[c] = true; last[c] = L.cni; blanked[c] = false;
         if (c == C_VPS) L.pid_seen_before = vps_pids.count(std::make_tuple(L.cni, L.pid.pil, L.pid.pcs, L.pid.pty)) > 0;
         break;
@@ -437,12 +466,12 @@ struct C13 : World {
         int key = xref.pair(L.b0, L.b1, &bytes);
         if (key == 2 * 256 + 1) {
           std::string s = strfu(bytes);
-          if (have_name && s == last_name) name_streak++; else { name_streak = 1; xds_dirty = true; }
+          if (have_name && s == last_name) { name_streak++; stable_names++; } else { name_streak = 1; stable_names = 1; xds_dirty = true; }
           have_name = true; last_name = s; L.name_delivered = true;
           ctx->log("ref name '%s' streak %d", s.c_str(), name_streak);
         } else if (key == 2 * 256 + 2) {
           // a change against what the decoder may hold (it may have lost the previous packet) permits a re-announcement
-          if (!have_call || last_call != strfu(bytes) || (have_call_alt && last_call_alt != strfu(bytes))) xds_dirty = true;
+          if (!have_call || last_call != strfu(bytes) || (have_call_alt && last_call_alt != strfu(bytes))) { xds_dirty = true; stable_names = 0; }
           if (call_open_uncertain) { have_call_alt = true; last_call_alt = have_call ? last_call : std::string(); ctx->count("xds_call_packet_across_reset"); }
           else have_call_alt = false;
           call_open_uncertain = false;
@@ -570,7 +599,7 @@ struct C13 : World {
       }
     }
     if (saw_blank_aspect && !saw_net && !relaxed) { ctx->fail("oracle:c13-aspect-spurious", "blank ASPECT event on %s line without a station change", kind_name[c]); return; }
-    if (line_blank) dirty = true;  // the decoder forgot what it received: one re-announcement is accepted
+    if (line_blank) dirty = true;  // every identifier was revoked: re-announcement accepted (and once per revoked carrier, see receive())
     if (L.faulted && L.valid && !saw_net) ctx->count("deviation_survived");
     if (c == C_VPS && L.valid) vps_pids.insert(std::make_tuple(L.cni, L.pid.pil, L.pid.pcs, L.pid.pty));
   }
@@ -624,6 +653,7 @@ struct C13 : World {
         // name and call letters arrive in separate packets, the statement does not say how they combine: a NETWORK event
         // is accepted for every confirmed change of the pair, not for the same pair again
         if (any_net && nm == last_net_name && cl == last_net_call) { ctx->fail("oracle:c13-network-repeat", "NETWORK raised again for '%s' / '%s' although the identified station did not change", nm.c_str(), cl.c_str()); return; }
+        if (any_net) ctx->count(nm == last_net_name ? "xds_network_same_name_new_call" : cl == last_net_call ? "xds_network_new_name_same_call" : "xds_network_new_name_new_call");
         network_changed(any_net, true);
         any_net = true; last_net_name = nm; last_net_call = cl; last_net_nuid = e.net.nuid;
         if (xref.pk[2 * 256 + 2].active) call_open_uncertain = true;
@@ -632,6 +662,25 @@ struct C13 : World {
         if (!xds_dirty) { ctx->fail("oracle:c13-netid-repeat", "NETWORK_ID '%s' announced again while the same name and call letters kept arriving", nm.c_str()); return; }
         xds_dirty = false;
       }
+    }
+    // Change clause ("When the identified station does change, exactly one network event is raised and the cached pages of
+    // the old station are dropped"; the pages are checked in flush() once the event is accepted).  An XDS station is
+    // identified by its network name and its call letters.  The statement gives no deadline; "received again unchanged"
+    // is two receptions, the model waits for one more: the event is overdue when the name has been received three times
+    // in a row unchanged since the name or the call letters last changed and the station received differs from the one of
+    // the last NETWORK event.  Demanded only where the identity is beyond doubt: the call letters received most recently
+    // differ from the announced ones, or no call letters were ever received and the names differ.  (A new name under
+    // unchanged call letters - a station changing its affiliation, or a station without call letters after one with -
+    // is not decided: with or without NETWORK event.)  Not demanded while a call letter packet may have been lost in a
+    // decoder reset.
+    if (!ctx->failed && !relaxed && L.name_delivered && any_net && stable_names >= 3 && !have_call_alt && !call_open_uncertain) {
+      bool differs = have_call ? last_call != last_net_call : last_name != last_net_name;
+      if (differs) {
+        ctx->fail("oracle:c13-change-no-network", "XDS station '%s' / '%s' received %d times in a row unchanged, no NETWORK event: the last one announced '%s' / '%s'",
+                  last_name.c_str(), have_call ? last_call.c_str() : "", stable_names, last_net_name.c_str(), last_net_call.c_str());
+        return;
+      }
+      if (stable_names == 3) ctx->count("xds_change_clause_evaluated");
     }
   }
 
@@ -751,9 +800,14 @@ struct C13 : World {
     if (mode == 2) {
       static const char* names[] = {"NBC", "PBS Kids", "Fox Network", "ABC", "CBS Television", "Univision", "The WB", "Q"};
       static const char* calls[] = {"WNBC", "KQED-TV", "WNYW", "WABC", "KCBS", "WXTV", "KTLA", "WQ"};
+      // a second affiliate of the same network, and call letters used under more than one network name
+      static const char* calls2[] = {"KNBC", "WETA", "KTTV", "KABC", "WCBS", "KMEX", "WPIX", "KQ"};
+      static const char* shared[] = {"KAAA", "WX"};
       size_t k = (size_t)(llabs(op.arg(0)) % 8);
+      int v = (int)(llabs(op.arg(4)) % 16);
       a.name = names[k];
-      a.call = (mask & 1) ? calls[k] : "";  // stations without call letters exist
+      const char* cl = (v % 4 <= 1) ? calls[k] : (v % 4 == 2) ? calls2[k] : shared[(v / 4) % 2];
+      a.call = (mask & 1) ? cl : "";  // stations without call letters exist
       a.has[0] = true; a.has[1] = !a.call.empty();
       air = a; ctx->log("station xds '%s' '%s'", a.name.c_str(), a.call.c_str());
       return;
@@ -906,7 +960,7 @@ struct C13 : World {
     wss_have = false; wss_last = 0; wss_streak = 0; aspect_known = false; memset((void*)&last_aspect, 0, sizeof last_aspect);
     vps_pids.clear(); must_pages.clear(); maybe_pages.clear(); pending_drop = false; net_epoch = 0;
     xref = XdsRef(); have_name = have_call = false; last_name.clear(); last_call.clear(); name_streak = 0; xds_last_sender = -1;
-    call_open_uncertain = have_call_alt = false; last_call_alt.clear(); xds_dirty = false;
+    call_open_uncertain = have_call_alt = false; last_call_alt.clear(); xds_dirty = false; stable_names = 0;
     receptions = legit_net = quiet_receptions = 0;
     Sched sched(c, (uint64_t)plan.knob("sched_seed", (int64_t)plan.seed), (Policy)(llabs(plan.knob("policy")) % 3), (int)plan.knob("pparam"));
     { SutScope ss;
